@@ -12,6 +12,7 @@ import (
 	"github.com/pion/interceptor/pkg/report"
 	"github.com/pion/interceptor/verifharness/kit"
 	"github.com/pion/rtcp"
+	"github.com/pion/rtp"
 	"pgregory.net/rapid"
 )
 
@@ -127,6 +128,9 @@ func TestSenderReports(t *testing.T) {
 		for i := range streams {
 			rate := rapid.SampledFrom([]uint32{8000, 48000, 90000}).Draw(t, "rate")
 			info := &interceptor.StreamInfo{SSRC: uint32(40 + i), ClockRate: rate} //nolint:gosec
+			if rapid.Bool().Draw(t, "rtxNegotiated") {
+				info.SSRCRetransmission, info.PayloadTypeRetransmission = uint32(1040+i), 97 //nolint:gosec
+			}
 			b := &bound{info: info, sink: &kit.RTPSink{}, m: &streamModel{ssrc: info.SSRC, rate: float64(rate)}}
 			b.w = ic.BindLocalStream(info, b.sink)
 			b.cursor = kit.U16Boundary().Draw(t, "startSeq")
@@ -162,16 +166,70 @@ func TestSenderReports(t *testing.T) {
 			}
 			clk.set(now)
 			from := rtcpSink.Len()
+			tickAt := now
+			// a slow transport: the write of the tick's first report is held up while the application goes on sending on the other
+			// streams (the clock moves on); their reports, generated afterwards, still carry the instant of this tick
+			var first chan uint32
+			var release chan struct{}
+			if ns >= 2 && rapid.IntRange(0, 2).Draw(t, "slowReportWrite") == 0 {
+				first, release = make(chan uint32, 1), make(chan struct{})
+				var once sync.Once
+				rtcpSink.OnCall = func(c kit.SentRTCP) {
+					once.Do(func() {
+						ssrc := uint32(0)
+						if len(c.Pkts) > 0 {
+							if sr, ok := c.Pkts[0].(*rtcp.SenderReport); ok {
+								ssrc = sr.SSRC
+							}
+						}
+						first <- ssrc
+						<-release
+					})
+				}
+			}
 			select {
 			case tk.ch <- now:
 			case <-time.After(kit.DefaultDeadline):
 				t.Fatalf("ticker loop did not accept a tick within the watchdog deadline")
 			}
+			if first != nil {
+				var held uint32
+				select {
+				case held = <-first:
+				case <-time.After(kit.DefaultDeadline):
+					t.Fatalf("tick %d: no sender report was written within the watchdog deadline", ticks+1)
+				}
+				now = now.Add(time.Duration(rapid.Int64Range(1000, 20_000_000).Draw(t, "whileHeldNs")))
+				clk.set(now)
+				for _, b := range streams {
+					if b.info.SSRC == held || b.resend > 0 {
+						continue
+					}
+					b.cursor++
+					if b.m.count > 0 {
+						b.ts += 3000
+					}
+					payload := kit.Payload(t, "p", 1460)
+					hdr := rtp.Header{Version: 2, SSRC: b.info.SSRC, SequenceNumber: b.cursor, Timestamp: b.ts}
+					if _, err := b.w.Write(&hdr, payload, nil); err != nil {
+						close(release)
+						t.Fatalf("Write while a report write is held up: %v", err)
+					}
+					h.U(0xFFFC, uint64(b.info.SSRC), uint64(b.cursor)).I(len(payload))
+					b.m.sent(b.cursor, b.ts, len(payload), now, useLatest)
+				}
+				classes["packets-sent-while-a-report-write-is-held-up"] = true
+				close(release)
+			}
 			if !kit.Eventually(kit.DefaultDeadline, func() bool { return rtcpSink.Len() >= from+ns }) {
 				t.Fatalf("tick %d: %d sender reports written for %d bound streams", ticks+1, rtcpSink.Len()-from, ns)
 			}
 			ticks++
-			h.U(0xFFFF, uint64(now.Sub(epoch)))
+			if first != nil {
+				kit.Eventually(kit.DefaultDeadline, func() bool { return rtcpSink.InFlight() == 0 })
+				rtcpSink.OnCall = nil
+			}
+			h.U(0xFFFF, uint64(tickAt.Sub(epoch)))
 			if pendingInteresting {
 				interesting = true
 			}
@@ -193,26 +251,26 @@ func TestSenderReports(t *testing.T) {
 				if sr == nil {
 					t.Fatalf("tick %d: no sender report for ssrc %d", ticks, b.info.SSRC)
 				}
-				where := fmt.Sprintf("tick %d at +%v, ssrc %d (%d packets sent)", ticks, now.Sub(epoch), b.info.SSRC, b.m.count)
+				where := fmt.Sprintf("tick %d at +%v, ssrc %d (%d packets sent)", ticks, tickAt.Sub(epoch), b.info.SSRC, b.m.count)
 				if sr.PacketCount != b.m.count {
 					t.Fatalf("%s: packet count %d, want %d", where, sr.PacketCount, b.m.count)
 				}
 				if sr.OctetCount != b.m.octets {
 					t.Fatalf("%s: octet count %d, want %d", where, sr.OctetCount, b.m.octets)
 				}
-				want := ntpOf(now)
+				want := ntpOf(tickAt)
 				if d := int64(sr.NTPTime - want); d > 4295 || d < -4295 { //nolint:gosec
 					t.Fatalf("%s: NTP time %#x, want %#x (report instant) within 1 us", where, sr.NTPTime, want)
 				}
-				if b.m.haveRef {
-					el := now.Sub(b.m.refAt).Seconds() * b.m.rate
+				if b.m.haveRef && !b.m.refAt.After(tickAt) { // (a reference packet stamped after the tick instant: the extrapolation backwards is not specified)
+					el := tickAt.Sub(b.m.refAt).Seconds() * b.m.rate
 					wantRTP := b.m.refTS + uint32(uint64(math.Floor(el)))  //nolint:gosec
 					if d := int32(sr.RTPTime - wantRTP); d > 1 || d < -1 { //nolint:gosec
 						t.Fatalf("%s: RTP time %d, want %d = reference timestamp %d (sent at +%v) + floor(%.6f s * %.0f) mod 2^32", where,
-							sr.RTPTime, wantRTP, b.m.refTS, b.m.refAt.Sub(epoch), now.Sub(b.m.refAt).Seconds(), b.m.rate)
+							sr.RTPTime, wantRTP, b.m.refTS, b.m.refAt.Sub(epoch), tickAt.Sub(b.m.refAt).Seconds(), b.m.rate)
 					}
 				}
-				logf("tick +%v ssrc=%d count=%d rtp=%d", now.Sub(epoch), b.info.SSRC, sr.PacketCount, sr.RTPTime)
+				logf("tick +%v ssrc=%d count=%d rtp=%d", tickAt.Sub(epoch), b.info.SSRC, sr.PacketCount, sr.RTPTime)
 			}
 		}
 		n := rapid.IntRange(1, 200).Draw(t, "steps")
@@ -228,7 +286,7 @@ func TestSenderReports(t *testing.T) {
 				// the same SSRC is bound again without an Unbind, possibly with another negotiated clock rate (a replaced track):
 				// the reports of the new binding count its packets and use its clock rate
 				rate := rapid.SampledFrom([]uint32{8000, 48000, 90000}).Draw(t, "rebindRate")
-				b.info = &interceptor.StreamInfo{SSRC: b.info.SSRC, ClockRate: rate}
+				b.info = &interceptor.StreamInfo{SSRC: b.info.SSRC, ClockRate: rate, SSRCRetransmission: b.info.SSRCRetransmission, PayloadTypeRetransmission: b.info.PayloadTypeRetransmission}
 				b.m = &streamModel{ssrc: b.info.SSRC, rate: float64(rate)}
 				b.w = ic.BindLocalStream(b.info, b.sink)
 				classes["rebind-without-unbind"] = true
@@ -274,6 +332,12 @@ func TestSenderReports(t *testing.T) {
 			payload := kit.Payload(t, "p", 1460)
 			hdr := kit.GenHeader(t, "h", kit.HeaderShape{})
 			hdr.SSRC, hdr.SequenceNumber, hdr.Timestamp = b.info.SSRC, seq, ts
+			if b.info.SSRCRetransmission != 0 && rapid.IntRange(0, 5).Draw(t, "rtxSSRC") == 0 {
+				// what a NACK responder placed above this interceptor writes on the stream's writer: a packet under the negotiated RTX SSRC.
+				// The statement counts the RTP packets written on the stream, whatever their header says.
+				hdr.SSRC = b.info.SSRCRetransmission
+				classes["packet-under-the-rtx-ssrc"] = true
+			}
 			before := b.sink.Len()
 			if _, err := b.w.Write(&hdr, payload, nil); err != nil {
 				t.Fatalf("Write: %v", err)
